@@ -181,6 +181,33 @@ memcpy(void *dst, const void *src, size_t n) {
 }
 
 /*
+ * memmove, size-specialised like memcpy: ini_val_set shifts the tail of the line-pointer
+ * table by one entry (a multiple of sizeof(pointer), at most VF_INI_MAXL_AFTER entries);
+ * the block is copied through a temporary, which is memmove's overlap semantics.
+ */
+#define VF_MEMMOVE_CASE(k)							\
+	case ((k) * sizeof(void *)): {						\
+		struct vf_mv##k { void *p[(k)]; } tmp_;				\
+		tmp_ = *(const struct vf_mv##k *)src;				\
+		*(struct vf_mv##k *)dst = tmp_;					\
+		break;								\
+	}
+void *
+memmove(void *dst, const void *src, size_t n) {
+
+	switch (n) {
+	case 0:
+		break;
+	VF_MEMMOVE_CASE(1) VF_MEMMOVE_CASE(2) VF_MEMMOVE_CASE(3)
+	VF_MEMMOVE_CASE(4) VF_MEMMOVE_CASE(5) VF_MEMMOVE_CASE(6)
+	default:
+		__CPROVER_assert(0, "memmove stub: a whole number of <= 6 table entries");
+		__CPROVER_assume(0);
+	}
+	return (dst);
+}
+
+/*
  * memchr / memrchr: CBMC 6.11 ships no model ("no body for callee memchr": the result would
  * be an arbitrary pointer).  Reference semantics: first / last occurrence inside [s, s+n).
  */
